@@ -51,9 +51,11 @@ PROPS = {
     'C03': dict(
         level='model_checking', design_ref='5/C03', oracle='C03',
         technique='explicit-state exploration of start/stop/process_event/enqueue histories; entry/exit ledger vs every introspection API at every quiescent state',
-        quick=[S(z, ops=pe_all(z) + ['eq:1', 'xq'], introspect=True) for z in ('ortho', 'hier2', 'hier3', 'entry', 'histS')],
+        quick=[S(z, ops=pe_all(z) + ['eq:1', 'xq'], introspect=True) for z in ('ortho', 'hier2', 'hier3', 'entry', 'histS')] +
+              [S('orthoA', cfgs=['b', 'b11', 'm', 'mc'], introspect=True)],     # a root machine with a history policy: stop / start again
         thorough=[S(z, ops=pe_all(z) + ['eq:1', 'eq:2', 'xq', 'xs'], introspect=True) for z in ('ortho', 'hier2', 'hier3', 'entry', 'histN', 'histA', 'histS', 'flat')] +
-                 [S('block', ops=pe_all('block') + ['eq:4', 'xq'], introspect=True), S('compl', ops=pe_all('compl') + ['eq:4', 'xq'], introspect=True)],
+                 [S('block', ops=pe_all('block') + ['eq:4', 'xq'], introspect=True), S('compl', ops=pe_all('compl') + ['eq:4', 'xq'], introspect=True),
+                  S('orthoA', introspect=True), S('orthoS', introspect=True)],
         rule='all histories over start/stop/process_event/enqueue_event/execute_queued_events to closure (pending queue <= 2); '
              'every distinct canonical state is a quiescent point checked against the ledger; non-trivial executions ran a callback',
     ),
